@@ -2,6 +2,7 @@ package main
 
 import (
 	"encoding/binary"
+	"errors"
 	"fmt"
 	"math/rand"
 	"net"
@@ -72,6 +73,7 @@ type connRec struct {
 	closeEntry  int64
 	closed      chan struct{}
 	closeOnce   sync.Once
+	forced      int32 // the application called the exported CloseAndClean itself: only the close count is asserted from then on
 
 	mu          sync.Mutex
 	written     map[wkey]bool // WriteMessage returned nil
@@ -168,7 +170,7 @@ func (e *env) onMessage(c *websocket.Conn, mt websocket.MessageType, data []byte
 	if atomic.LoadInt64(&rec.openExit) == 0 {
 		e.violate("c14:"+cls+":message-callback-before-open-callback-returned", fmt.Sprintf("connection %s: the message callback for seq %d was entered at t=%d while the open callback (entered t=%d) had not returned\nevents of the connection:\n%s", rec.key, hd.Seq, t, atomic.LoadInt64(&rec.openEntry), e.log.Slice(rec.key, 40)))
 	}
-	if ce := atomic.LoadInt64(&rec.closeEntry); ce != 0 {
+	if ce := atomic.LoadInt64(&rec.closeEntry); ce != 0 && atomic.LoadInt32(&rec.forced) == 0 {
 		e.violate("c14:"+cls+":message-callback-after-close-callback", fmt.Sprintf("connection %s: the message callback for seq %d was entered at t=%d, after the close callback (t=%d)\nevents of the connection:\n%s", rec.key, hd.Seq, t, ce, e.log.Slice(rec.key, 40)))
 	}
 	idx := e.connIdx(rec)
@@ -200,6 +202,13 @@ func (e *env) onMessage(c *websocket.Conn, mt websocket.MessageType, data []byte
 			time.Sleep(time.Duration(20+hd.Seq%200) * time.Microsecond)
 		}
 	}
+	if e.end == "server-closeandclean" && hd.Seq == e.c.InMsgs/2 {
+		// the exported CloseAndClean (nbhttp.ParserCloser) called by the application
+		// while the engine's own close path will call it too: still one close callback
+		e.log.Add("server.closeandclean", rec.key, int64(hd.Seq), "")
+		atomic.StoreInt32(&rec.forced, 1)
+		go c.CloseAndClean(errors.New("application cleanup"))
+	}
 	if e.end == "server-close" && hd.Seq == e.c.InMsgs/2 {
 		e.log.Add("server.close", rec.key, int64(hd.Seq), "")
 		if hd.Seq%2 == 0 {
@@ -223,7 +232,7 @@ func (e *env) onClose(c *websocket.Conn, err error) {
 	if n > 1 {
 		e.violate("c14:"+cls+":close-callback-count", fmt.Sprintf("connection %s: the close callback ran %d times\nevents of the connection:\n%s", rec.key, n, e.log.Slice(rec.key, 40)))
 	}
-	if m := atomic.LoadInt32(&rec.insideMsg); m > 0 {
+	if m := atomic.LoadInt32(&rec.insideMsg); m > 0 && atomic.LoadInt32(&rec.forced) == 0 {
 		e.violate("c14:"+cls+":close-callback-overlaps-message-callback", fmt.Sprintf("connection %s: the close callback was entered at t=%d while %d message callback(s) were still running\nevents of the connection:\n%s", rec.key, t, m, e.log.Slice(rec.key, 40)))
 	}
 	if atomic.LoadInt32(&rec.insideOpen) > 0 || atomic.LoadInt64(&rec.openExit) == 0 {
